@@ -59,7 +59,7 @@ def ev_from_json(j):
 class Session:
     """Runs events on both sides; raises Divergence at the first difference."""
 
-    def __init__(self, version=7, seed=0, compare_state=True, observers=(), sched=False, aio=False):
+    def __init__(self, version=7, seed=0, compare_state=True, observers=(), sched=False, aio=False, scripts=False):
         self.version = version
         self.aio = aio
         if aio:
@@ -74,6 +74,9 @@ class Session:
         else:
             self.impl = I.Impl(version=version, seed=seed)
         self.sched = sched
+        if scripts:
+            import scripts as Sx
+            self.impl.Sock = Sx.make_script_socket(self.impl.Sock, self.impl.rnd)
         self.model = get_model(version)
         self.queues = {}          # conn -> list of queued command names (None when not in MULTI)
         self.compare_state = compare_state
